@@ -2,7 +2,7 @@
     Property theorems only, about the per-window methods REGENERATED from the source (Gen/GenScalars.v;
     translation validated by correspondence K5).  [eql] = elementwise equality of rationals. *)
 From Coq Require Import QArith Qabs List Bool String.
-From IV Require Import QL Dist Ecdf QListFacts GenUtils GenScalars RatLS C16_compose C03_proofs C02_proofs C04_proofs C01_proofs C09_proofs RatLS_proofs Affine Affine_debiasers Driver Driver_rel ApplyLocation_units ApplyLocation_param IsimipStep5 IsimipStep5_proofs SDM SDM_units IsimipStep3 IsimipStep5 IsimipWindow IsimipWindow_units.
+From IV Require Import QL Dist Ecdf QListFacts GenUtils GenScalars RatLS C16_compose C03_proofs C02_proofs C04_proofs C01_proofs C09_proofs RatLS_proofs Affine Affine_debiasers Driver Driver_rel ApplyLocation_units ApplyLocation_param IsimipStep5 IsimipStep5_proofs SDM SDM_units IsimipStep3 IsimipStep5 IsimipWindow IsimipWindow_proofs IsimipWindow_units NP GenWindows.
 Import ListNotations.
 Open Scope Q_scope.
 
@@ -241,3 +241,20 @@ Theorem C04_isimip_window_unit_change_ratls : forall a b em im thr so sh sf yo y
   ARL a b (isimip_window ratls em im thr so sh sf yo yh yf obs hist fut) (isimip_window ratls em im thr so sh sf yo yh yf obs' hist' fut').
 Proof. exact isimip_window_unit_change_ratls. Qed.
 Print Assumptions C04_isimip_window_unit_change_ratls.
+
+(** ... and through the running-window loop of ISIMIP.apply_location on dated values: all three series expressed in
+    the other unit (dates unchanged, a significance decision that does not depend on the unit) *)
+Theorem C04_isimip_unit_change_through_windows : forall (a b : Q), 0 < a -> forall (P : Type) (D : dist P) (good : list Q -> Prop),
+  fit_unit_change D a b good -> (forall l, good l -> l <> []) ->
+  forall em im thr, em = step_function \/ em = linear_interpolation ->
+  forall sigf : list Q -> list Z -> bool, (forall x x' y, ARL a b x x' -> sigf x' y = sigf x y) ->
+  forall (L S : Z) (dobs dhist dfut : list Z) (obs obs' hist hist' fut fut' : list (Q * Z)),
+  (forall ci, In ci (days_use S dfut) ->
+     NP.take obs (days_indices_in_window L dobs (fst ci)) <> [] /\ NP.take hist (days_indices_in_window L dhist (fst ci)) <> [] /\
+     window_ok good em im sigf (NP.take obs (days_indices_in_window L dobs (fst ci))) (NP.take hist (days_indices_in_window L dhist (fst ci)))
+               (NP.take fut (days_indices_in_window L dfut (fst ci)))) ->
+  Forall2 (PR2 a b) obs obs' -> Forall2 (PR2 a b) hist hist' -> Forall2 (PR2 a b) fut fut' ->
+  orel (Forall2 (orel (AR a b))) (driver_rw Q L S dobs dhist dfut obs hist fut (W_isimip D em im thr sigf))
+                                 (driver_rw Q L S dobs dhist dfut obs' hist' fut' (W_isimip D em im thr sigf)).
+Proof. exact @isimip_unit_change_through_windows. Qed.
+Print Assumptions C04_isimip_unit_change_through_windows.
